@@ -44,6 +44,10 @@
 (*                 the request's timer, whose task is the one running the  *)
 (*                 handler, so the report is cut short at the first        *)
 (*                 listener that really suspends                           *)
+(*   LossCancelsTimers  the server connection going to CLOSING cancels the  *)
+(*                 timers of the pending requests (TRUE; FALSE = the code  *)
+(*                 as found: only the wishlist task is cancelled, only     *)
+(*                 stop() cancels request timers)                          *)
 (*   EmitBeforeClose  _on_peer_search_reply looks the request up and       *)
 (*                 reports the result in one stretch, before it awaits     *)
 (*                 connection.disconnect (TRUE = the code as found; FALSE  *)
@@ -68,7 +72,8 @@ CONSTANTS
   LstCode,       \* the application's listeners of SearchRequestRemovedEvent, in registration order:
                  \* a string over s (plain function), a (coroutine that does not suspend),
                  \* u (coroutine that really suspends once); "-" = none
-  UnsetGuard, RemoveCancels, SharedGen, EmitBeforeClose, StartBeforeEmit, CmdFreshTicket, TimeoutUsesRemove
+  UnsetGuard, RemoveCancels, SharedGen, EmitBeforeClose, StartBeforeEmit, CmdFreshTicket, TimeoutUsesRemove,
+  LossCancelsTimers
 
 VARIABLES
   now,
@@ -360,6 +365,19 @@ ReplyRelease(h) ==
   /\ op' = Op("rrelease", h, 0) /\ ran' = 0 /\ errs' = errs /\ q' = FALSE
   /\ UNCHANGED <<now, rt, wt, srvIval, abst, requests, gen, tmo, handle, task, wl, sc, nops>>
 
+\* The server connection is lost or closed (ConnectionStateChangedEvent CLOSING for the
+\* ServerConnection, manager.py _on_state_changed): the wishlist task is cancelled.  The requests
+\* stay registered - replies come over peer connections - and so do their timeouts.
+RECURSIVE CancelAll(_, _)
+CancelAll(M, S) == IF S = {} THEN M ELSE LET e == CHOOSE x \in S : TRUE IN CancelAll(CancelIn(M, e), S \ {e})
+SrvLoss ==
+  /\ EnvTurn("srvloss")
+  /\ wl' = [wl EXCEPT !.st = IF wl.st = "none" THEN "none" ELSE "dead"]
+  /\ SetMicro(IF LossCancelsTimers THEN CancelAll(Micro, {requests_e[2] : requests_e \in requests}) ELSE Micro)
+  /\ out' = <<>>
+  /\ Stim(Op("srvloss", 0, 0))
+  /\ UNCHANGED <<srvIval, abst, requests, gen, tmo>>
+
 \* ---- listeners of SearchRequestSentEvent that interfere, and commands executed again
 
 \* search() while a listener of SearchRequestSentEvent removes the request it is told about:
@@ -626,8 +644,15 @@ RunWishlist ==
   /\ ran' = 0 /\ errs' = errs
   /\ op' = Op("none", 0, 0) /\ q' = (ready' = <<ENV>>) /\ UNCHANGED <<now, rt, wt, srvIval, nops, hc, sc>>
 
+\* a step or wake-up of the cancelled wishlist task: it just ends
+RunWlDead ==
+  /\ ready # <<>> /\ Head(ready).k \in {"wl", "wldue"} /\ wl.st = "dead"
+  /\ ready' = Tail(ready)
+  /\ out' = <<>> /\ ran' = 0 /\ errs' = errs
+  /\ Internal /\ UNCHANGED <<abst, requests, handle, task, wl>>
+
 RunWlDue ==
-  /\ ready # <<>> /\ Head(ready) = H("wldue", 0)
+  /\ ready # <<>> /\ Head(ready) = H("wldue", 0) /\ wl.st = "sleep"
   /\ wl' = [wl EXCEPT !.st = "woken"]
   /\ ready' = Append(Tail(ready), H("wl", 0))
   /\ out' = <<>> /\ ran' = 0 /\ errs' = errs
@@ -659,7 +684,7 @@ Next ==
   \/ \E t \in 1..MaxTasks : RunCallback(t)
   \/ \E t \in 1..MaxTasks : RunEmitResume(t)
   \/ \E t \in 1..MaxTasks : RunUnset(t)
-  \/ RunWishlist \/ RunWlDue
+  \/ RunWishlist \/ RunWlDue \/ RunWlDead \/ SrvLoss
 
 Spec == Init /\ [][Next]_vars
 
